@@ -32,18 +32,22 @@ static bool case_anchor(int64_t off, uint64_t len, uint64_t n) {
     return true;
 }
 // (2) a message whose variable-length field descriptors are hostile, deserialized by the real DeserializerIOV
-static bool case_hostile(uint64_t name_len, uint64_t blob_len, uint64_t payload) {
+static bool case_hostile(uint64_t name_len, uint64_t blob_len, uint64_t payload, uint64_t cut = 0) {
     Msg m; m.a = 1; m.b = 2;
     m.name._ptr = (void*)0x10; m.name._len = name_len; m.blob._ptr = (void*)0x20; m.blob._len = blob_len;     // as found on the wire
     std::vector<char> bytes(payload + sizeof(Msg)); for (size_t i = 0; i < payload; ++i) bytes[i] = 'a' + i % 26;
     memcpy(bytes.data() + payload, &m, sizeof(Msg));
-    IOVector iov; iov.push_back(bytes.data(), bytes.size());
+    IOVector iov;
+    if (cut && payload > 1) { size_t c = 1 + cut % (payload - 1); iov.push_back(bytes.data(), c); iov.push_back(bytes.data() + c, bytes.size() - c); }   // fragmented input
+    else iov.push_back(bytes.data(), bytes.size());
     DeserializerIOV des; Msg* t = des.deserialize<Msg>(&iov);
     if (!t) { if (name_len + blob_len <= payload && name_len <= payload) FAIL("well-formed message rejected"); return true; }
-    if (!inside(t->name.addr(), t->name.size(), bytes)) FAIL("string field outside the supplied bytes");
-    if (!inside(t->blob.addr(), t->blob.size(), bytes)) FAIL("buffer field outside the supplied bytes");
+    // a field is either inside the supplied bytes or (when it straddles elements) a copy of the next flat bytes
+    if (name_len + blob_len > payload) FAIL("message accepted although its fields are longer than the bytes supplied");
+    if (!inside(t->name.addr(), t->name.size(), bytes) && memcmp(t->name.addr(), bytes.data(), t->name.size())) FAIL("string field is neither inside nor a copy of the supplied bytes");
+    if (!inside(t->blob.addr(), t->blob.size(), bytes) && memcmp(t->blob.addr(), bytes.data() + t->name.size(), t->blob.size())) FAIL("buffer field is neither inside nor a copy of the supplied bytes");
     auto v = t->name.sv();
-    if (!(v.size() == 0 || (inside(v.data(), v.size(), bytes) && v.size() <= t->name.size()))) FAIL("string::sv() of a deserialized field reaches outside the supplied bytes");
+    if (!(v.size() == 0 || (v.data() == (const char*)t->name.addr() && v.size() <= t->name.size()))) FAIL("string::sv() of a deserialized field reaches outside the field");
     return true;
 }
 // (3) honest round trip of one message, fragmented
@@ -106,7 +110,7 @@ int main(int argc, char** argv) {
         if (j.find("\"kind\": \"anchor\"") != std::string::npos) ok = case_anchor(jnum(j, "off"), jnum(j, "len"), jnum(j, "n"));
         else if (j.find("\"kind\": \"hostile_array\"") != std::string::npos) ok = case_hostile_array(jnum(j, "arr_len"), jnum(j, "payload"));
         else if (j.find("\"kind\": \"checksum\"") != std::string::npos) ok = case_checksum(jnum(j, "name_len"), jnum(j, "flip_at"), (int)jnum(j, "where"));
-        else if (j.find("\"kind\": \"hostile\"") != std::string::npos) ok = case_hostile(jnum(j, "name_len"), jnum(j, "blob_len"), jnum(j, "payload"));
+        else if (j.find("\"kind\": \"hostile\"") != std::string::npos) ok = case_hostile(jnum(j, "name_len"), jnum(j, "blob_len"), jnum(j, "payload"), jnum(j, "cut"));
         else ok = case_anchor(1 << 20, 16, 8) && case_hostile(0, 0, 4);     // canonical inputs for the contract obligations
         printf("%s %s\n", ok ? "NOT-REPRODUCED" : "REPRODUCED", why.c_str()); return 0;
     }
@@ -116,7 +120,7 @@ int main(int argc, char** argv) {
         uint64_t n = rnd() % 64; int64_t off = (rnd() % 4 == 0) ? (int64_t)rnd() : (int64_t)(rnd() % 80) - 8; uint64_t len = (rnd() % 4 == 0) ? rnd() : rnd() % 80;
         ++cases; if (!case_anchor(off, len, n)) { printf("CEX anchor {\"kind\": \"anchor\", \"off\": %ld, \"len\": %lu, \"n\": %lu, \"why\": \"%s\"}\n", off, len, n, why.c_str()); return 3; }
         uint64_t payload = rnd() % 48, nl = rnd() % 3 == 0 ? 0 : rnd() % 64, bl = rnd() % 3 == 0 ? 0 : rnd() % 64; if (rnd() % 8 == 0) nl = rnd();
-        ++cases; if (!case_hostile(nl, bl, payload)) { printf("CEX hostile {\"kind\": \"hostile\", \"name_len\": %lu, \"blob_len\": %lu, \"payload\": %lu, \"why\": \"%s\"}\n", nl, bl, payload, why.c_str()); return 3; }
+        uint64_t cut = rnd() % 2 ? rnd() : 0; ++cases; if (!case_hostile(nl, bl, payload, cut)) { printf("CEX hostile {\"kind\": \"hostile\", \"name_len\": %lu, \"blob_len\": %lu, \"payload\": %lu, \"cut\": %lu, \"why\": \"%s\"}\n", nl, bl, payload, cut, why.c_str()); return 3; }
         { uint64_t nl = rnd() % 24, fa = rnd(); int where = rnd() % 2; static bool told = false; ++cases;
           if (!case_checksum(nl, fa, where)) {
               const char* cls = where == 0 ? "checksum_fields" : "checksum_body";
